@@ -1340,10 +1340,10 @@ func ruleODBank(c *Ctx, s *readFileShape) {
 	var store *ssa.Store
 	for _, b := range ex.Blocks {
 		for _, in := range b.Instrs {
-			if u, ok := in.(*ssa.UnOp); ok && u.Op == token.MUL && strings.HasSuffix(accessPath(u.X), "->rb") && load == nil {
+			if u, ok := in.(*ssa.UnOp); ok && u.Op == token.MUL && strings.HasSuffix(accessPath(u.X), "->"+resourceRoles(P).rb) && load == nil {
 				load = u
 			}
-			if st, ok := in.(*ssa.Store); ok && strings.HasSuffix(accessPath(st.Addr), "->rb") {
+			if st, ok := in.(*ssa.Store); ok && strings.HasSuffix(accessPath(st.Addr), "->"+resourceRoles(P).rb) {
 				store = st
 			}
 		}
